@@ -114,6 +114,54 @@ class VOpt(Value):
         return "VOpt(%s,%r)" % (self.isnone, self.val)
 
 
+T_NONE, T_INT, T_FLOAT, T_STR, T_FUNC, T_GEN, T_OBJ, T_BOOL = 0, 1, 2, 3, 4, 5, 6, 7
+
+
+class VDyn(Value):
+    """dynamically typed configuration parameter (delay, selection policy, capacity ...).
+    tag: z3 Int in T_*; num: z3 Real (value when the tag is int/float/bool); s: z3 Int (string code when str);
+    oid: z3 Int (identity when callable / generator / other object)."""
+
+    def __init__(self, name=None, tag=None, num=None, s=None, oid=None):
+        if name is not None:
+            tag = z3.Int(name + ".tag")
+            num = z3.Real(name + ".num")
+            s = z3.Int(name + ".str")
+            oid = z3.Int(name + ".oid")
+        self.tag, self.num, self.s, self.oid = tag, num, s, oid
+
+    def is_num(self):
+        return z3.Or(self.tag == T_INT, self.tag == T_FLOAT, self.tag == T_BOOL)
+
+    def well_formed(self):
+        return z3.And(self.tag >= 0, self.tag <= 7,
+                      z3.Implies(z3.Or(self.tag == T_INT, self.tag == T_BOOL), z3.IsInt(self.num)),
+                      z3.Implies(self.tag == T_BOOL, z3.Or(self.num == 0, self.num == 1)))
+
+    def __repr__(self):
+        return "VDyn(%s)" % self.tag
+
+
+def dyn_of(v):
+    """inject a statically typed value into VDyn"""
+    if isinstance(v, VDyn):
+        return v
+    if isinstance(v, VNone):
+        return VDyn(tag=z3.IntVal(T_NONE), num=z3.RealVal(0), s=z3.IntVal(0), oid=z3.IntVal(-1))
+    if isinstance(v, Num):
+        if v.inf is not None:
+            raise Unsupported("possibly infinite number as dynamic value")
+        return VDyn(tag=z3.IntVal(T_INT if v.is_int else T_FLOAT), num=(z3.ToReal(v.t) if v.is_int else v.t),
+                    s=z3.IntVal(0), oid=z3.IntVal(-1))
+    if isinstance(v, VStr):
+        return VDyn(tag=z3.IntVal(T_STR), num=z3.RealVal(0), s=v.t, oid=z3.IntVal(-1))
+    if isinstance(v, VBool):
+        return VDyn(tag=z3.IntVal(T_BOOL), num=z3.If(v.t, z3.RealVal(1), z3.RealVal(0)), s=z3.IntVal(0), oid=z3.IntVal(-1))
+    if isinstance(v, VObj):
+        return VDyn(tag=z3.IntVal(T_OBJ), num=z3.RealVal(0), s=z3.IntVal(0), oid=v.t)
+    raise Unsupported("dyn_of %r" % (v,))
+
+
 class VOpaque(Value):
     def __init__(self, tag=""):
         self.tag = tag
@@ -199,6 +247,8 @@ def mk_value(name, kind):
         return VOpt(z3.Bool(name + ".isnone"), mk_value(name + ".val", kind[1]))
     if tag == "tuple":
         return VTuple([mk_value("%s.%d" % (name, k), ek) for k, ek in enumerate(kind[1])])
+    if tag == "dyn":
+        return VDyn(name)
     if tag == "opaque":
         return VOpaque(name)
     if tag == "none":
@@ -235,6 +285,9 @@ def ite(c, a, b):
         return VTuple([ite(c, x, y) for x, y in zip(a.items, b.items)])
     if isinstance(a, SList) and isinstance(b, SList):
         return SList(z3.If(c, a.len, b.len), lambda i: ite(c, a.at(i), b.at(i)), a.ekind)
+    if isinstance(a, VDyn) or isinstance(b, VDyn):
+        a, b = dyn_of(a), dyn_of(b)
+        return VDyn(tag=z3.If(c, a.tag, b.tag), num=z3.If(c, a.num, b.num), s=z3.If(c, a.s, b.s), oid=z3.If(c, a.oid, b.oid))
     if isinstance(a, VOpaque) or isinstance(b, VOpaque):
         return VOpaque("ite")
     raise Unsupported("ite over %r / %r" % (a, b))
@@ -283,6 +336,9 @@ def _finite(n):
 
 def truth(v):
     """z3 Bool: Python truthiness of v."""
+    if isinstance(v, VDyn):
+        return z3.And(v.tag != T_NONE, z3.Implies(v.is_num(), v.num != 0),
+                      z3.Implies(v.tag == T_STR, v.s != z3.IntVal(str_const(""))))
     if isinstance(v, VBool):
         return v.t
     if isinstance(v, VNone):
@@ -306,6 +362,15 @@ def truth(v):
 
 def eq(a, b):
     """z3 Bool: a == b (Python ==; for objects identity, as no class here defines __eq__)."""
+    if isinstance(a, VDyn) or isinstance(b, VDyn):
+        if isinstance(a, VOpt) or isinstance(b, VOpt):
+            raise Unsupported("== between dynamic and optional value")
+        a, b = dyn_of(a), dyn_of(b)
+        num_eq = z3.And(a.is_num(), b.is_num(), a.num == b.num)
+        return z3.Or(num_eq,
+                     z3.And(a.tag == T_NONE, b.tag == T_NONE),
+                     z3.And(a.tag == T_STR, b.tag == T_STR, a.s == b.s),
+                     z3.And(a.tag == b.tag, a.tag >= T_FUNC, a.tag <= T_OBJ, a.oid == b.oid))
     if isinstance(a, VOpt) or isinstance(b, VOpt):
         if isinstance(a, VNone):
             return b.isnone
